@@ -528,6 +528,149 @@ theorem sdmx_roundtrip_integer (n : Int) : (toSdmx ⟨.I, n⟩).bind fromSdmx = 
     have e2 : (n.natAbs : Int) = n := by omega
     simp [e2]
 
+/-! ## 5b. Sequences of SDMX strings (`periods_from_sdmx_strings`) -/
+
+theorem needSome_bind_ok {α β} (o : Option α) (k : α → R β) (b : β) (h : (needSome o >>= k) = .ok b) :
+    ∃ a, o = some a ∧ k a = .ok b := by
+  cases o with
+  | none => simp [needSome, bind, Except.bind, throw, throwThe, MonadExceptOf.throw] at h
+  | some a => exact ⟨a, rfl, by simpa [needSome, bind, Except.bind, pure, Except.pure] using h⟩
+
+theorem fromYearSegment_freq (f : Freq) (y s : Int) : (fromYearSegment f y s).freq = f := by
+  cases f <;> rfl
+
+theorem fromSdmxAs_freq (f : Freq) (s : Str) (p : Period) (h : fromSdmxAs f s = .ok p) : p.freq = f := by
+  cases f <;> simp only [fromSdmxAs] at h
+  · obtain ⟨n, -, hk⟩ := needSome_bind_ok _ _ _ h
+    cases hk; rfl
+  · obtain ⟨n, -, hk⟩ := needSome_bind_ok _ _ _ h
+    cases hk; rfl
+  · split at h
+    · obtain ⟨y, -, hk⟩ := needSome_bind_ok _ _ _ h
+      obtain ⟨q, -, hk⟩ := needSome_bind_ok _ _ _ hk
+      cases hk; exact fromYearSegment_freq _ _ _
+    · cases h
+  · split at h
+    · obtain ⟨y, -, hk⟩ := needSome_bind_ok _ _ _ h
+      obtain ⟨q, -, hk⟩ := needSome_bind_ok _ _ _ hk
+      cases hk; exact fromYearSegment_freq _ _ _
+    · cases h
+  · split at h
+    · obtain ⟨y, -, hk⟩ := needSome_bind_ok _ _ _ h
+      obtain ⟨q, -, hk⟩ := needSome_bind_ok _ _ _ hk
+      cases hk; exact fromYearSegment_freq _ _ _
+    · cases h
+  · split at h
+    · obtain ⟨y, -, hk⟩ := needSome_bind_ok _ _ _ h
+      obtain ⟨m, -, hk⟩ := needSome_bind_ok _ _ _ hk
+      obtain ⟨d, -, hk⟩ := needSome_bind_ok _ _ _ hk
+      simp only [fromYmd] at hk
+      split at hk
+      · cases hk; rfl
+      · cases hk
+    · cases h
+
+theorem roundtrip_parts (p : Period) (s : Str) (hs : toSdmx p = .ok s) (hrt : (toSdmx p).bind fromSdmx = .ok p) :
+    detectFreq s = .ok (some p.freq) ∧ fromSdmxAs p.freq s = .ok p := by
+  rw [hs] at hrt
+  have h : fromSdmx s = .ok p := hrt
+  simp only [fromSdmx, bind, Except.bind] at h
+  cases hd : detectFreq s with
+  | error e => rw [hd] at h; cases h
+  | ok o =>
+    rw [hd] at h
+    cases o with
+    | none => cases h
+    | some f' =>
+      have h' : fromSdmxAs f' s = .ok p := h
+      have := fromSdmxAs_freq f' s p h'
+      subst this
+      exact ⟨rfl, h'⟩
+
+theorem mapM_fromSdmxAs (f : Freq) : ∀ (ps : List Period) (ss : List Str),
+    (∀ p ∈ ps, p.freq = f) → ps.mapM toSdmx = .ok ss → (∀ p ∈ ps, (toSdmx p).bind fromSdmx = .ok p) →
+    ss.mapM (fromSdmxAs f) = .ok ps
+  | [], ss, _, hss, _ => by
+    simp [pure, Except.pure] at hss; subst hss; rfl
+  | p :: ps, ss, hf, hss, hrt => by
+    rw [List.mapM_cons] at hss
+    cases hp : toSdmx p with
+    | error e => rw [hp] at hss; cases hss
+    | ok s =>
+      rw [hp] at hss
+      cases hps : ps.mapM toSdmx with
+      | error e => rw [hps] at hss; cases hss
+      | ok ss' =>
+        rw [hps] at hss
+        have : ss = s :: ss' := by cases hss; rfl
+        subst this
+        have ih := mapM_fromSdmxAs f ps ss' (fun q hq => hf q (by simp [hq])) hps (fun q hq => hrt q (by simp [hq]))
+        have hpf := hf p (by simp)
+        obtain ⟨-, h2⟩ := roundtrip_parts p s hp (hrt p (by simp))
+        rw [hpf] at h2
+        rw [List.mapM_cons, h2, ih]; rfl
+
+/-- **Sequences.** For periods `ps` of one frequency whose SDMX strings each round-trip (the hypotheses of
+`sdmx_roundtrip_regular/_daily/_integer`), parsing the list of their strings -- in any order, with gaps or repetitions --
+returns exactly `ps`, with the frequency given or auto-detected from the first string. -/
+theorem periods_from_sdmx_roundtrip (f : Freq) (ps : List Period) (ss : List Str)
+    (hf : ∀ p ∈ ps, p.freq = f) (hss : ps.mapM toSdmx = .ok ss)
+    (hrt : ∀ p ∈ ps, (toSdmx p).bind fromSdmx = .ok p) :
+    periodsFromSdmx none ss = .ok ps ∧ periodsFromSdmx (some f) ss = .ok ps := by
+  have hm := mapM_fromSdmxAs f ps ss hf hss hrt
+  cases ps with
+  | nil =>
+    simp [pure, Except.pure] at hss; subst hss
+    exact ⟨rfl, rfl⟩
+  | cons p ps =>
+    rw [List.mapM_cons] at hss
+    cases hp : toSdmx p with
+    | error e => rw [hp] at hss; cases hss
+    | ok s =>
+      rw [hp] at hss
+      cases hps : ps.mapM toSdmx with
+      | error e => rw [hps] at hss; cases hss
+      | ok ss' =>
+        rw [hps] at hss
+        have : ss = s :: ss' := by cases hss; rfl
+        subst this
+        obtain ⟨h1, -⟩ := roundtrip_parts p s hp (hrt p (by simp))
+        rw [hf p (by simp)] at h1
+        constructor
+        · simp only [periodsFromSdmx, h1, bind, Except.bind, pure, Except.pure]
+          exact hm
+        · simp only [periodsFromSdmx, bind, Except.bind, pure, Except.pure]
+          exact hm
+
+theorem mapM_toSdmx_ok : ∀ (ps : List Period), (∀ p ∈ ps, (toSdmx p).bind fromSdmx = .ok p) → ∃ ss, ps.mapM toSdmx = .ok ss
+  | [], _ => ⟨[], rfl⟩
+  | p :: ps, hrt => by
+    obtain ⟨ss, hss⟩ := mapM_toSdmx_ok ps (fun q hq => hrt q (by simp [hq]))
+    have h := hrt p (by simp)
+    cases hp : toSdmx p with
+    | error e => rw [hp] at h; cases h
+    | ok s => exact ⟨s :: ss, by rw [List.mapM_cons, hp, hss]; rfl⟩
+
+/-- the same without assuming that the strings exist: they do, and parsing them gives the periods back -/
+theorem periods_from_sdmx_roundtrip_exists (f : Freq) (ps : List Period) (hf : ∀ p ∈ ps, p.freq = f)
+    (hrt : ∀ p ∈ ps, (toSdmx p).bind fromSdmx = .ok p) :
+    ∃ ss, ps.mapM toSdmx = .ok ss ∧ periodsFromSdmx none ss = .ok ps ∧ periodsFromSdmx (some f) ss = .ok ps := by
+  obtain ⟨ss, hss⟩ := mapM_toSdmx_ok ps hrt
+  exact ⟨ss, hss, periods_from_sdmx_roundtrip f ps ss hf hss hrt⟩
+
+/-- non-vacuity: a quarterly sequence with a gap, out of order and with a repetition (2021-Q3, 2020-Q1, 2021-Q3) -/
+example : ∃ ss, [(⟨.Q, 8086⟩ : Period), ⟨.Q, 8080⟩, ⟨.Q, 8086⟩].mapM toSdmx = .ok ss ∧
+    periodsFromSdmx none ss = .ok [⟨.Q, 8086⟩, ⟨.Q, 8080⟩, ⟨.Q, 8086⟩] := by
+  obtain ⟨ss, h1, h2, -⟩ := periods_from_sdmx_roundtrip_exists .Q [⟨.Q, 8086⟩, ⟨.Q, 8080⟩, ⟨.Q, 8086⟩]
+    (by intro p hp; simp at hp; rcases hp with h | h | h <;> subst h <;> rfl)
+    (by
+      intro p hp; simp at hp
+      rcases hp with h | h | h <;> subst h
+      · exact sdmx_roundtrip_regular .Q (by simp [regularFreqs]) 8086 (by decide) (by decide)
+      · exact sdmx_roundtrip_regular .Q (by simp [regularFreqs]) 8080 (by decide) (by decide)
+      · exact sdmx_roundtrip_regular .Q (by simp [regularFreqs]) 8086 (by decide) (by decide))
+  exact ⟨ss, h1, h2⟩
+
 /-! ## 6. Non-vacuity -/
 
 /-- the hypotheses of the string round trips are met by concrete periods (2020-Q4, 2020-02-29) -/
@@ -539,3 +682,4 @@ example : ((Freq.Q, Freq.M) ∈ finerPairs) ∧ Freq.M ∈ calendarFreqs := by d
 example : 0 ≤ (ord2ymd 737484).1 ∧ (ord2ymd 737484).1 ≤ 9999 := by decide
 
 end IrisVerif.Dates.C11
+
